@@ -199,12 +199,12 @@ def build_string(fn, var, before=None):
                 idx = [i for i, a in enumerate(c.args) if a.path() == var][0]
                 if idx >= len(ps) or ps[idx].type.replace("const ", "").strip() != "char *" or "const" in ps[idx].type:
                     continue
+                sub, sub_seen = build_string(callee, ps[idx].name)
+                if not sub_seen:
+                    continue        # the callee only reads the buffer
                 if c.parent is not body:
                     raise AnalysisError("%s: path buffer %s is passed to %s() under control flow at line %s" % (
                         fn.name, var, c.callee, c.line))
-                sub, sub_seen = build_string(callee, ps[idx].name)
-                if not sub_seen:
-                    continue
                 seen_any = True
                 binding = {ps[i].name: c.args[i] for i in range(min(len(ps), len(c.args)))}
                 first_is_copy = any(x.callee in ("strcpy", "strncpy", "snprintf", "sprintf") and x.args and x.args[0].path() == ps[idx].name
